@@ -190,7 +190,8 @@ func (is *Issuer) IssueCardSecurity(securityInfos []byte) ([]byte, RangeMap) {
 
 // MasterListSigner issues (memoised) the master list signer certificate of this CSCA for the given key.
 func (is *Issuer) MasterListSigner(k *Key) *Cert {
-	return is.IssueDS(CertSpec{Serial: big.NewInt(0x2001), Subject: NewName(is.Profile.Country, "Reference State", "Master List Signer", "MLS 01"), Key: k})
+	return is.IssueDS(CertSpec{Serial: big.NewInt(0x2001), Subject: NewName(is.Profile.Country, "Reference State", "Master List Signer", "MLS 01"), Key: k,
+		Extra: []Ext{EKUMasterListSigner()}})
 }
 
 // NewMasterList returns the SignedData of a CSCA master list containing certs, signed by signerKey whose
@@ -210,4 +211,10 @@ func (is *Issuer) NewMasterList(certs []*Cert, signerKey *Key, signerCert *Cert)
 func (is *Issuer) IssueMasterList(certs []*Cert) ([]byte, RangeMap) {
 	k := is.DSKey
 	return is.NewMasterList(certs, k, is.MasterListSigner(k)).Encode(EncDER, 0)
+}
+
+// EKUMasterListSigner is the critical extendedKeyUsage { id-icao-mrtd-security-masterListSigner } extension that
+// Doc 9303-12 prescribes for master list signer certificates.
+func EKUMasterListSigner() Ext {
+	return Ext{OID: []int{2, 5, 29, 37}, Critical: true, Value: DER(Seq(OID([]int{2, 23, 136, 1, 1, 3})))}
 }
